@@ -216,6 +216,10 @@ func (rw *remoteUnit) startRemoteUnit(ctx context.Context, conn net.Conn, reader
 	if err != nil {
 		return fmt.Errorf("error closing stdin file: %s", err)
 	}
+	if verifhook.On {
+		verifhook.Emit("rw", "rw_stdin_shipped", "id", rw.ID())
+	}
+	verifhook.CrashPoint("remote_after_stdin_shipped")
 	response, err = utils.ReadStringContext(ctx, reader, '\n')
 	if err != nil {
 		return fmt.Errorf("read error reading from %s: %s", red.RemoteNode, err)
